@@ -66,7 +66,7 @@ def strict_prefix(base, p):
 # ------------------------------------------------------------------------------------------------
 # the property, read directly (reference semantics; independent of the Lean build)
 
-def expected(case, with_known_defect=False):
+def expected(case):
     """What the statement of C04 demands of a commit of `case`, as a trace.
 
     Declared actions D (in declaration order; an executed action's `adds` are declared when it runs),
@@ -81,7 +81,9 @@ def expected(case, with_known_defect=False):
         unsettled discriminators of the first phase that has any -> conflict naming exactly those;
         otherwise the first (declaration order) action of the phase that has no discriminator or is the
         winner of a discriminator that has not run executes; a phase with nothing to execute is passed.
-    with_known_defect=True reproduces recorded finding F-C04b (late siblings) on top of that.
+    The field 'late_siblings' only feeds the distribution report: it counts the settled phases in which an
+    already executed discriminator had >= 2 later actions none of which heads the others (the input class of
+    the repaired defect F-C04b, d8099dc); it has no influence on the verdict.
     """
     nodes = {n['id']: n for n in walk(case['top'])}
     D = [n['id'] for n in case['top']]
@@ -89,7 +91,7 @@ def expected(case, with_known_defect=False):
     L, evals = [], {}
     discarded = set()                      # "silently discarded": lost in a phase that was settled
     last_phase = None
-    flagged = False
+    late_siblings = 0
 
     def disc(i):
         d = nodes[i]['disc']
@@ -102,7 +104,7 @@ def expected(case, with_known_defect=False):
         late = [i for i in U if decl_phase[i] is not None and nodes[i]['order'] < decl_phase[i]]
         if late:
             return {'out': 'regress', 'keys': [], 'regress': [min(nodes[i]['order'] for i in late), last_phase],
-                    'log': L, 'evals': evals, 'fc04b': flagged}
+                    'log': L, 'evals': evals, 'late_siblings': late_siblings}
         nxt = None
         for q in sorted({nodes[i]['order'] for i in U}):
             G = [i for i in U if nodes[i]['order'] == q]
@@ -114,7 +116,7 @@ def expected(case, with_known_defect=False):
             for i in L:
                 if disc(i) is not None:
                     ran[disc(i)] = i
-            unsettled, defect, winners = set(), set(), set()
+            unsettled, winners, lsib = set(), set(), 0
             for d in {disc(i) for i in G} - {None}:
                 Gd = [i for i in G if disc(i) == d]
                 inner = [w for w in Gd if all(x == w or strict_prefix(nodes[w]['path'], nodes[x]['path']) for x in Gd)]
@@ -122,23 +124,21 @@ def expected(case, with_known_defect=False):
                     if not all(strict_prefix(nodes[ran[d]]['path'], nodes[x]['path']) for x in Gd):
                         unsettled.add(d)
                     elif not inner:
-                        defect.add(d)       # F-C04b: all are below the executed action, but not below one of themselves
+                        lsib += 1           # all are below the executed action, none is below all the others: discarded
                 elif inner:
                     winners.add(inner[0])
                 else:
                     unsettled.add(d)
-            if with_known_defect and defect:
-                unsettled |= defect
-                flagged = True
             if unsettled:
-                return {'out': 'conflict', 'keys': sorted(unsettled), 'regress': None, 'log': L, 'evals': evals, 'fc04b': flagged}
+                return {'out': 'conflict', 'keys': sorted(unsettled), 'regress': None, 'log': L, 'evals': evals, 'late_siblings': late_siblings}
+            late_siblings += lsib
             run = [i for i in G if disc(i) is None or i in winners]
             discarded.update(i for i in G if i not in run)
             if run:
                 nxt = run[0]
                 break
         if nxt is None:
-            return {'out': 'ok', 'keys': [], 'regress': None, 'log': L, 'evals': evals, 'fc04b': flagged}
+            return {'out': 'ok', 'keys': [], 'regress': None, 'log': L, 'evals': evals, 'late_siblings': late_siblings}
         L = L + [nxt]
         last_phase = nodes[nxt]['order']
         for k in nodes[nxt]['adds']:
@@ -337,12 +337,6 @@ def judge(case, got):
     if same:
         return None
     v = {'case': case, 'impl': got, 'expected': spec_view(exp)}
-    alt = expected(case, with_known_defect=True)
-    if alt['fc04b'] and all(got[k] == alt[k] for k in VIEW) and got['evals'] == spec_view(alt)['evals']:
-        v['finding'] = 'F-C04b'
-        v['detail'] = ('conflict raised for a discriminator whose executed action is a strict prefix of every later '
-                       'action with it (late siblings are compared with each other instead of with the executed action)')
-        return v
     if got['log'] != exp['log']:
         v['detail'] = 'executed actions / their order differ from what the statement demands'
     elif got['out'] != exp['out']:
@@ -496,7 +490,7 @@ def run(ctx):
     seen, nontriv = set(), set()
     dist = {'via': {}, 'outcome': {}, 'declared_actions': {}, 'phases_used': {}, 'with_adds': 0, 'with_deferred': 0,
             'shared_discriminator': 0, 'overridden_some': 0, 'executed_len': {}, 'static_spec_checked': 0,
-            'known_defect_F-C04b': 0, 'include_depth_max': {}, 'full_configurator': 0, 'conflict_key_count': {}}
+            'late_siblings_discarded': 0, 'include_depth_max': {}, 'full_configurator': 0, 'conflict_key_count': {}}
     for case, mo in zip(cases, model):
         got = impl(case)
         m = compare_model(case, got, mo)
@@ -507,11 +501,11 @@ def run(ctx):
         v = judge(case, got)
         if v:
             viol.append(v)
-        # the driver's own declarative spec (static programs) must agree with the model except on F-C04b
+        # the driver's own declarative spec (static programs) must agree with the model
         if mo is not None and mo.get('spec') is not None:
             dist['static_spec_checked'] += 1
             sp = mo['spec']
-            if any(sp[k] != mo[k] for k in ('out', 'keys', 'log')) and not (v and v.get('finding') == 'F-C04b'):
+            if any(sp[k] != mo[k] for k in ('out', 'keys', 'log')):
                 mism.append({'case': case, 'impl': 'lean model vs lean spec', 'model': mo})
         key = json.dumps(case, sort_keys=True)
         nds = list(walk(case['top']))
@@ -525,7 +519,7 @@ def run(ctx):
             vfutil.bump(dist['conflict_key_count'], len(got['keys']))
         if any(x['adds'] for x in nds): dist['with_adds'] += 1
         if any(isinstance(x['disc'], dict) for x in nds): dist['with_deferred'] += 1
-        if v and v.get('finding') == 'F-C04b': dist['known_defect_F-C04b'] += 1
+        if expected(case)['late_siblings'] and got['out'] != 'conflict': dist['late_siblings_discarded'] += 1
         if got['out'] == 'ok' and len(got['log']) < len(nds): dist['overridden_some'] += 1
         if key not in seen:
             seen.add(key)
